@@ -29,8 +29,11 @@ class ModelFieldsPercentMatch(ModelCmp):
         self.percent_fields = percent_fields
 
     def cmp(self, fields_a: set, fields_b: set) -> bool:
-        # cross-multiplied: two models without fields (empty objects) must not divide by zero
-        return len(fields_a & fields_b) >= self.percent_fields * len(fields_a | fields_b)
+        fields_union = fields_a | fields_b
+        if not fields_union:
+            # Two models without fields (empty objects) have the same set of keys
+            return True
+        return len(fields_a & fields_b) / len(fields_union) >= self.percent_fields
 
 
 class ModelFieldsNumberMatch(ModelCmp):
